@@ -276,6 +276,8 @@ class SolverPool:
         """tasks: iterable of (key, smt_text). Returns dict key -> (status, witness|reason, secs)."""
         if timeout_ms is None:
             timeout_ms = 5000 if tier() == "quick" else 15000
+            if os.environ.get("VERIF_TIMEOUT_MS"):
+                timeout_ms = int(os.environ["VERIF_TIMEOUT_MS"])
         tasks = [(k, t, timeout_ms) for k, t in tasks]
         texts = {k: t for k, t, _ in tasks}
         out = {}
@@ -486,17 +488,61 @@ class Report:
         self.findings = [f for f in load_known_findings()
                          if f.get("property") == pid and f.get("status", "known") == "known"]
         self.samples = []
+        self._det = None
+        self._lists = {}
+        self._dump = {}
+        self.extra_deterministic = set()
 
     def sample(self, s, limit=12):
         if len(self.samples) < limit:
             self.samples.append(s)
 
+    # --- known findings identified by input ------------------------------------------------
+    # For the deterministic part of the program set (corpus + enumerations; the same texts in every
+    # run and for every seed) a known finding is identified by the specific inputs that fail on the
+    # pinned tree: known_inputs/<finding id>.jsonl lists [program, clause] pairs. A deterministic
+    # program that fails without being listed is a violation even if it belongs to the syntactic
+    # class (role) of the finding. Seeded random programs and combinator tuples cannot be listed;
+    # for them the role decides. The lists are committed and never written by a check run
+    # (VERIF_DUMP_KNOWN_INPUTS=<dir> is a maintenance switch that writes candidate lists elsewhere).
+    def _deterministic(self):
+        if self._det is None:
+            import progs
+            self._det = set(progs.program_asts(max_random=0, small="quick")) | set(self.extra_deterministic)
+        return self._det
+
+    def _listed(self, fid):
+        if fid not in self._lists:
+            path = os.path.join(VERIF, "known_inputs", fid + ".jsonl")
+            if os.path.exists(path):
+                self._lists[fid] = {tuple(json.loads(l)) for l in open(path, encoding="utf-8") if l.strip()}
+            else:
+                self._lists[fid] = None
+        return self._lists[fid]
+
+    @staticmethod
+    def _input_key(record):
+        sh = record.get("short") or {}
+        prog = sh.get("program")
+        if not isinstance(prog, str):
+            return None
+        return (prog, str(sh.get("clause") or sh.get("problem") or ""))
+
     def candidate(self, roles, record):
         """A counterexample that reproduced on the real build. `roles` is the set of role names the
         checker computed for it; it is attributed to a known finding iff one listed for this
-        property has one of these roles."""
+        property has one of these roles and -- for a deterministic program of a finding that has an
+        input list -- the input is listed."""
+        key = self._input_key(record)
+        dumping = bool(os.environ.get("VERIF_DUMP_KNOWN_INPUTS"))
         for f in self.findings:
             if f["role"] in roles:
+                det = key is not None and self.level == "translation_validation" and key[0] in self._deterministic()
+                if det:
+                    self._dump.setdefault(f["id"], set()).add(key)
+                    listed = self._listed(f["id"])
+                    if listed is not None and key not in listed and not dumping:
+                        continue
                 self.known.setdefault(f["id"], []).append(record)
                 return "known"
         self.violations.append(dict(record, roles=sorted(roles)))
@@ -514,6 +560,13 @@ class Report:
         import glob as _glob
         for old in _glob.glob(os.path.join(OUT, "replays", self.pid + "-*.json")):
             os.remove(old)
+        if os.environ.get("VERIF_DUMP_KNOWN_INPUTS"):
+            d = os.environ["VERIF_DUMP_KNOWN_INPUTS"]
+            os.makedirs(d, exist_ok=True)
+            for fid, keys in self._dump.items():
+                with open(os.path.join(d, fid + ".jsonl"), "a", encoding="utf-8") as f:
+                    for k in sorted(keys):
+                        f.write(json.dumps(list(k), ensure_ascii=False) + "\n")
         cov = dict(self.coverage)
         if extra_coverage:
             cov.update(extra_coverage)
